@@ -328,23 +328,51 @@ func c05Headers(c *Ctx, r *Report) {
 	var seq []string
 	archMap := map[string]string{}
 	for _, s := range fd.Body.List {
-		switch x := s.(type) {
-		case *ast.SwitchStmt:
-			if strings.HasSuffix(exprStr(x.Tag), ".arch") {
-				for _, cl := range x.Body.List {
-					cc := cl.(*ast.CaseClause)
-					if len(cc.List) == 1 && len(cc.Body) == 1 {
-						ast.Inspect(cc.Body[0], func(nd ast.Node) bool {
-							if call, ok := nd.(*ast.CallExpr); ok && isPkgFunc(callee(info, call), "encoding/binary", "Write") && len(call.Args) == 3 {
-								if v, ok := exprInt(info, call.Args[2]); ok {
-									archMap[exprStr(cc.List[0])] = fmt.Sprint(v)
-								}
-							}
-							return true
-						})
-					}
+		switch s.(type) {
+		case *ast.SwitchStmt, *ast.IfStmt:
+			// `switch e.arch { case binary.X: write(k) }` or `if e.arch == binary.X { write(k) } else if ...`
+			arms, _, isChain := asIfChain(s)
+			isArch := false
+			for _, a := range arms {
+				be, ok := unparen(a.cond).(*ast.BinaryExpr)
+				if !ok || be.Op != token.EQL {
+					continue
 				}
+				l, rr := exprStr(be.X), exprStr(be.Y)
+				if strings.HasSuffix(rr, ".arch") {
+					l, rr = rr, l
+				}
+				if !strings.HasSuffix(l, ".arch") {
+					continue
+				}
+				isArch = true
+				if len(a.body) == 1 {
+					ast.Inspect(a.body[0], func(nd ast.Node) bool {
+						if call, ok := nd.(*ast.CallExpr); ok && isPkgFunc(callee(info, call), "encoding/binary", "Write") && len(call.Args) == 3 {
+							if v, ok := exprInt(info, call.Args[2]); ok {
+								archMap[rr] = fmt.Sprint(v)
+							}
+						}
+						return true
+					})
+				}
+			}
+			if isChain && isArch {
 				seq = append(seq, "arch")
+			} else {
+				ast.Inspect(s, func(nd ast.Node) bool {
+					if call, ok := nd.(*ast.CallExpr); ok && isPkgFunc(callee(info, call), "encoding/binary", "Write") && len(call.Args) == 3 {
+						a := strings.ReplaceAll(exprStr(call.Args[2]), " ", "")
+						if v, isConst := exprInt(info, call.Args[2]); isConst {
+							a = fmt.Sprintf("const %d", v)
+						}
+						if !strings.HasSuffix(exprStr(call.Args[1]), ".arch") {
+							a += "@fixed-order"
+						}
+						seq = append(seq, a)
+					}
+					return true
+				})
 			}
 		case *ast.RangeStmt:
 			seq = append(seq, "fields")
@@ -414,8 +442,8 @@ func c05Sizes(c *Ctx, r *Report) {
 			}
 			fvar := exprStr(rg.Value)
 			as, ok1 := rg.Body.List[0].(*ast.AssignStmt)
-			ifs, ok2 := rg.Body.List[1].(*ast.IfStmt)
-			if !ok1 || !ok2 || len(as.Rhs) != 1 {
+			arms, elseBody, ok2 := asIfChain(rg.Body.List[1])
+			if !ok1 || !ok2 || len(as.Rhs) != 1 || len(arms) != 2 || elseBody != nil {
 				continue
 			}
 			cl, ok := as.Rhs[0].(*ast.CompositeLit)
@@ -446,14 +474,14 @@ func c05Sizes(c *Ctx, r *Report) {
 				})
 				return sb.String()
 			}
-			c1 := strings.ReplaceAll(exprStr(ifs.Cond), " ", "") == dv+".btype==types.BaseString"
-			b1 := len(ifs.Body.List) == 1 && norm(ifs.Body) == dv+".size="+fvar+".length;"
+			c1 := strings.ReplaceAll(exprStr(arms[0].cond), " ", "") == dv+".btype==types.BaseString"
+			b1 := len(arms[0].body) == 1 && norm(&ast.BlockStmt{List: arms[0].body}) == dv+".size="+fvar+".length;"
 			okElse := false
-			if e2, ok := ifs.Else.(*ast.IfStmt); ok && e2.Else == nil {
-				c2 := strings.ReplaceAll(exprStr(e2.Cond), " ", "") == fvar+".t.Array()"
-				n2 := norm(e2.Body)
+			{
+				c2 := strings.ReplaceAll(exprStr(arms[1].cond), " ", "") == fvar+".t.Array()"
+				n2 := norm(&ast.BlockStmt{List: arms[1].body})
 				b2 := n2 == dv+".size="+dv+".size*"+fvar+".length;" || n2 == dv+".size="+fvar+".length*"+dv+".size;"
-				okElse = c2 && b2 && len(e2.Body.List) == 1
+				okElse = c2 && b2 && len(arms[1].body) == 1
 			}
 			// then binary.Write(..., fdef)
 			okW := false
@@ -718,12 +746,24 @@ func c05WriteField(c *Ctx, r *Report) {
 // c05DefBeforeData: R5.
 func c05DefBeforeData(c *Ctx, r *Report) {
 	n := 0
-	for _, fname := range []string{"encoder.encodeDefAndDataMesg", "encoder.encodeFile"} {
-		fn := c.ssaFn(c.fn(c.fit, fname))
-		if fn == nil {
-			r.fail("C05-R5-def-before-data", fname, "", "not found")
-			continue
+	// every function on Encode's call tree that writes data records (found by role, not by name)
+	var writers []*ssa.Function
+	if enc := c.ssaFn(c.fn(c.fit, "Encode")); enc != nil {
+		for _, fn := range c.reach([]*ssa.Function{enc}).module() {
+			if fnPkgPath(fn) != modPath {
+				continue
+			}
+			for _, ci := range allCalls(fn) {
+				if f := ci.Common().StaticCallee(); f != nil && f.Name() == "writeMesg" {
+					writers = append(writers, fn)
+					break
+				}
+			}
 		}
+	}
+	sort.Slice(writers, func(i, j int) bool { return writers[i].Name() < writers[j].Name() })
+	for _, fn := range writers {
+		fname := "encoder." + fn.Name()
 		var defs, datas []*ssa.Call
 		for _, ci := range allCalls(fn) {
 			f := ci.Common().StaticCallee()
@@ -1186,11 +1226,39 @@ func c05ArchHelper(c *Ctx) (map[string]string, bool) {
 // A definition carried over from an earlier message (written again only "when something
 // changed") is neither: a field that only a later message has is then silently not written.
 func encodeDefCovers(c *Ctx, r *Report, rule string) {
-	fn := c.ssaFn(c.fn(c.fit, "encoder.encodeFile"))
-	if fn == nil {
-		r.fail(rule, "encodeFile/definition-covers-list", "", "encoder.encodeFile not found")
+	fns := c.listWriterFns()
+	if len(fns) == 0 {
+		r.fail(rule, "encodeFile/definition-covers-list", "", "no function on Encode's call tree writes the records of a list (writeMesg inside a loop)")
 		return
 	}
+	for _, fn := range fns {
+		encodeDefCoversIn(c, r, rule, fn)
+	}
+}
+
+// listWriterFns: functions reachable from Encode that call writeMesg inside a loop (the list
+// writer, wherever a refactoring has put it).
+func (c *Ctx) listWriterFns() []*ssa.Function {
+	enc := c.ssaFn(c.fn(c.fit, "Encode"))
+	if enc == nil {
+		return nil
+	}
+	var out []*ssa.Function
+	for _, fn := range c.reach([]*ssa.Function{enc}).module() {
+		if fnPkgPath(fn) != modPath {
+			continue
+		}
+		for _, ci := range allCalls(fn) {
+			if f := ci.Common().StaticCallee(); f != nil && f.Name() == "writeMesg" && inLoop(ci.Block()) {
+				out = append(out, fn)
+				break
+			}
+		}
+	}
+	return out
+}
+
+func encodeDefCoversIn(c *Ctx, r *Report, rule string, fn *ssa.Function) {
 	isCallTo := func(v ssa.Value, name string) *ssa.Call {
 		call, ok := v.(*ssa.Call)
 		if !ok || call.Common().StaticCallee() == nil {
@@ -1215,7 +1283,7 @@ func encodeDefCovers(c *Ctx, r *Report, rule string) {
 	n := 0
 	for _, ci := range allCalls(fn) {
 		f := ci.Common().StaticCallee()
-		if f == nil || f.Name() != "writeMesg" || len(ci.Common().Args) != 3 {
+		if f == nil || f.Name() != "writeMesg" || len(ci.Common().Args) != 3 || !inLoop(ci.Block()) {
 			continue
 		}
 		n++
@@ -1244,7 +1312,21 @@ func encodeDefCovers(c *Ctx, r *Report, rule string) {
 		for _, src := range sources {
 			g := isCallTo(src, "getEncodeMesgDef")
 			if g == nil {
-				ok, why = false, "the definition comes from "+stripAddrs(pathOf(src))+", not from getEncodeMesgDef"
+				// a helper that is given the list and returns the merged definition
+				if hc, isCall := src.(*ssa.Call); isCall && hc.Common().StaticCallee() != nil && fnPkgPath(hc.Common().StaticCallee()) == modPath {
+					helper := hc.Common().StaticCallee()
+					pidx := -1
+					for i, a := range hc.Common().Args {
+						if a == list {
+							pidx = i
+						}
+					}
+					if pidx >= 0 && mergedOverParam(helper, helper.Params[pidx]) {
+						mode = "merged over the whole list by " + helper.Name()
+						continue
+					}
+				}
+				ok, why = false, "the definition comes from "+stripAddrs(pathOf(src))+", not from getEncodeMesgDef (or a helper that merges the definitions of the whole list)"
 				break
 			}
 			arg := g.Common().Args[0]
@@ -1319,8 +1401,82 @@ func encodeDefCovers(c *Ctx, r *Report, rule string) {
 		r.check(ok, rule, "encodeFile/definition-covers-list", c.pos(ci.Pos()), "the definition used for a list's records is "+mode, "a record of a list can be written under a definition that does not cover it: "+why+" — fields that only some messages of the list have set are silently dropped (or read back as another field)")
 	}
 	if n == 0 {
-		r.fail(rule, "encodeFile/definition-covers-list", c.pos(fn.Pos()), "no writeMesg call found in encodeFile")
+		r.fail(rule, "encodeFile/definition-covers-list", c.pos(fn.Pos()), "no writeMesg call in a loop found in "+fn.Name())
 	}
+}
+
+// mergedOverParam: g runs k = 0 .. Len(p)-1 over its parameter p, calls getEncodeMesgDef on
+// Index(p, k), puts every field of each result into a map, rebuilds a field list from a range over
+// that map and returns the definition (or nil).
+func mergedOverParam(g *ssa.Function, p *ssa.Parameter) bool {
+	var loopPhi *ssa.Phi
+	var m ssa.Value
+	sawGet := false
+	for _, b := range g.Blocks {
+		for _, ins := range b.Instrs {
+			call, ok := ins.(*ssa.Call)
+			if !ok || call.Common().StaticCallee() == nil || call.Common().StaticCallee().Name() != "getEncodeMesgDef" {
+				continue
+			}
+			x := call.Common().Args[0]
+			if ind, ok := x.(*ssa.Call); ok && ind.Common().StaticCallee() != nil && ind.Common().StaticCallee().String() == "reflect.Indirect" {
+				x = ind.Common().Args[0]
+			}
+			ix, ok := x.(*ssa.Call)
+			if !ok || ix.Common().StaticCallee() == nil || ix.Common().StaticCallee().String() != "(reflect.Value).Index" || ix.Common().Args[0] != ssa.Value(p) {
+				continue
+			}
+			phi, ok := ix.Common().Args[1].(*ssa.Phi)
+			if !ok || len(phi.Edges) != 2 {
+				continue
+			}
+			okLoop := false
+			for i, e := range phi.Edges {
+				k0, isK := e.(*ssa.Const)
+				inc, isInc := phi.Edges[1-i].(*ssa.BinOp)
+				if isK && k0.Value != nil && k0.Int64() == 0 && isInc && inc.Op == token.ADD && inc.X == ssa.Value(phi) {
+					if one, ok := inc.Y.(*ssa.Const); ok && one.Int64() == 1 {
+						if ifi, ok := phi.Block().Instrs[len(phi.Block().Instrs)-1].(*ssa.If); ok {
+							if cond, ok := ifi.Cond.(*ssa.BinOp); ok && cond.Op == token.LSS && cond.X == ssa.Value(phi) {
+								if ln, ok := cond.Y.(*ssa.Call); ok && ln.Common().StaticCallee() != nil && ln.Common().StaticCallee().String() == "(reflect.Value).Len" && ln.Common().Args[0] == ssa.Value(p) {
+									okLoop = true
+								}
+							}
+						}
+					}
+				}
+			}
+			if okLoop {
+				sawGet = true
+				loopPhi = phi
+			}
+		}
+	}
+	if !sawGet {
+		return false
+	}
+	body, _ := loopBody(loopPhi.Block())
+	for b := range body {
+		for _, ins := range b.Instrs {
+			if mu, ok := ins.(*ssa.MapUpdate); ok {
+				m = mu.Map
+			}
+		}
+	}
+	ranged, rebuilt := false, false
+	for _, b := range g.Blocks {
+		for _, ins := range b.Instrs {
+			if rg, ok := ins.(*ssa.Range); ok && m != nil && rg.X == m {
+				ranged = true
+			}
+			if st, ok := ins.(*ssa.Store); ok && strings.HasSuffix(pathOf(st.Addr), ".fields") {
+				if _, isApp := st.Val.(*ssa.Call); isApp && ranged {
+					rebuilt = true
+				}
+			}
+		}
+	}
+	return m != nil && ranged && rebuilt
 }
 
 // encodeValueWrites reads encoder.encodeValue through its path terms (helpers inlined, so a write
@@ -1383,4 +1539,66 @@ func (c *Ctx) encodeValueWrites() ([]evWrite, string) {
 		return nil, "no success path"
 	}
 	return out, ""
+}
+
+// asIfChain views a statement as a chain of guarded arms: an if / else-if chain, a tagless
+// switch (`switch { case A: ... }`) or a tagged switch (`switch x { case v: ... }`, arm condition
+// x == v). Arms are in source order, which is their evaluation order in all three forms; a default
+// or final else is returned separately. Multi-value cases and fallthrough are not a chain.
+type ifArm struct {
+	cond ast.Expr
+	body []ast.Stmt
+}
+
+func asIfChain(s ast.Stmt) (arms []ifArm, elseBody []ast.Stmt, ok bool) {
+	switch x := s.(type) {
+	case *ast.IfStmt:
+		for cur := x; cur != nil; {
+			if cur.Init != nil {
+				return nil, nil, false
+			}
+			arms = append(arms, ifArm{cur.Cond, cur.Body.List})
+			switch e := cur.Else.(type) {
+			case nil:
+				cur = nil
+			case *ast.IfStmt:
+				cur = e
+			case *ast.BlockStmt:
+				elseBody = e.List
+				cur = nil
+			default:
+				return nil, nil, false
+			}
+		}
+		return arms, elseBody, true
+	case *ast.SwitchStmt:
+		if x.Init != nil {
+			return nil, nil, false
+		}
+		for i, cl := range x.Body.List {
+			cc := cl.(*ast.CaseClause)
+			for _, st := range cc.Body {
+				if br, isBr := st.(*ast.BranchStmt); isBr && br.Tok == token.FALLTHROUGH {
+					return nil, nil, false
+				}
+			}
+			if cc.List == nil {
+				if i != len(x.Body.List)-1 {
+					return nil, nil, false // a default that is not last still runs last, but keep it simple
+				}
+				elseBody = cc.Body
+				continue
+			}
+			if len(cc.List) != 1 {
+				return nil, nil, false
+			}
+			cond := cc.List[0]
+			if x.Tag != nil {
+				cond = &ast.BinaryExpr{X: x.Tag, Op: token.EQL, Y: cc.List[0]}
+			}
+			arms = append(arms, ifArm{cond, cc.Body})
+		}
+		return arms, elseBody, true
+	}
+	return nil, nil, false
 }
